@@ -205,6 +205,13 @@ def run(repo, rep, tier):
     _coverage(repo, rep)
     _store(repo, rep)
     _lookup(repo, rep)
+    nt_, glued_ = L.glued_words(repo, ('chameleon.zpt.template', 'chameleon.template'))
+    rep.check(nt_ >= 1 and not glued_, "R15.1", "chameleon.zpt.template", "every entry of "
+              "the tuples of hashed option names is one string literal (no "
+              "two names glued together by a missing comma)",
+              construct="table-entry-glued", detail="; ".join(
+                  "%s:%d %s" % (g[0].relpath, g[1], g[2])
+                  for g in glued_[:3]) or "%d word tables" % nt_)
 
 
 def _coverage(repo, rep):
@@ -329,6 +336,32 @@ def _coverage(repo, rep):
               "falls back to a representation that cannot give a wrong hit",
               construct="stable-name-module-level", where=L.where(sn),
               detail=str(guards))
+    # the name is the QUALIFIED one: two classes' nested factories
+    # (Shout.Expr / Whisper.Expr) share __name__ and module
+    fmts = [n for n in ast.walk(sn.node) if isinstance(n, ast.Call)
+            and isinstance(n.func, ast.Attribute) and n.func.attr == "format"
+            and len(n.args) == 2]
+    okq = bool(fmts)
+    qdetail = ""
+    for fm in fmts:
+        e = fm.args[1]
+        if isinstance(e, ast.Name):
+            defs_ = [a.value for a in ast.walk(sn.node)
+                     if isinstance(a, ast.Assign)
+                     and src(a.targets[0]) == e.id]
+            e = defs_[-1] if defs_ else e
+        first = e.values[0] if isinstance(e, ast.BoolOp) and isinstance(
+            e.op, ast.Or) else e
+        qdetail = src(e)[:120]
+        if not (isinstance(first, ast.Call) and src(first.func) == "getattr"
+                and len(first.args) >= 2
+                and isinstance(first.args[1], ast.Constant)
+                and first.args[1].value == "__qualname__"):
+            okq = False
+    rep.check(okq, "R15.1", sn.qualname, "the name half of module.name is "
+              "the object's qualified name (its plain __name__ only where "
+              "it has none)", construct="stable-name-qualified",
+              where=L.where(sn), detail=qdetail)
     # ... nor does a method bound to an instance: the bound method forwards
     # the function's __qualname__, the instance that configures it is not in
     # the name (two expression-type factories obj_a.make / obj_b.make)
